@@ -924,7 +924,7 @@ def replay(ctx, obj):
 
 class method_mutant:
     """like mutate.source_mutant, for a method of a class: the method is recompiled from its source with one
-    textual edit (in a copy of the module namespace) and installed on the class inside this process only"""
+    textual edit and installed on the class inside this process only"""
     def __init__(self, module, cls, name, old, new):
         import inspect
         import textwrap
@@ -932,9 +932,9 @@ class method_mutant:
         src = textwrap.dedent(inspect.getsource(self.orig))
         if src.count(old) < 1:
             raise MachineryError("mutant anchor %r not found in %s.%s" % (old, cls.__name__, name))
-        ns = dict(module.__dict__)
-        exec(compile(src.replace(old, new, 1), "<mutant %s.%s>" % (cls.__name__, name), "exec"), ns)
-        self.mutated = ns[name]
+        locs = {}          # the definition lands here; globals resolve in the module (a method may be named like a global)
+        exec(compile(src.replace(old, new, 1), "<mutant %s.%s>" % (cls.__name__, name), "exec"), module.__dict__, locs)
+        self.mutated = locs[name]
 
     def __enter__(self):
         setattr(self.cls, self.name, self.mutated)
@@ -1007,13 +1007,13 @@ def selftest(ctx):
     trial("chunk_distinct: keeps the last element per key inside a partition", source_mutant(
         BC, "chunk_distinct", "return list(unique(seq, key=key))", "return list(unique(list(seq)[::-1], key=key))[::-1]"), {"distinct"})
     trial("Bag.foldby: intermediate tree levels merge with binop, not combine", method_mutant(
-        BC, BC.Bag, "foldby", "(partial, reduce, combine),", "(partial, reduce, binop),"), {"foldby"}, n=10, deep=80)
+        BC, BC.Bag, "foldby", "(partial, reduce, combine),", "(partial, reduce, binop),"), {"foldby"}, n=6, deep=40)
     trial("Bag.reduction: intermediate tree levels apply perpartition, not aggregate", method_mutant(
         BC, BC.Bag, "reduction", "aggregate,\n" + " " * 16 + "[(b, j) for j in inds],", "perpartition,\n" + " " * 16 + "[(b, j) for j in inds],"),
-        {"fold", "reduction", "frequencies", "count"}, n=10, deep=40)
+        {"fold", "reduction", "frequencies", "count"}, n=5, deep=15)
     trial("benign: topk(key=) prefers the later of two equal-key elements", method_mutant(
         BC, BC.Bag, "topk", "func = partial(topk, k, key=key)", "func = compose(partial(topk, k, key=key), list, reversed, list)"),
-        {"topk"}, expect=False, n=25, deep=30)
+        {"topk"}, expect=False, n=8, deep=10)
     trial("benign: repartition puts the remainder first", source_mutant(
         BC, "repartition_npartitions", "nsplits[-1] += mod", "nsplits[0] += mod"), {"repartition"}, expect=False)
     # (ii) corrupted / truncated recorded fields must be rejected by the trace specification
